@@ -230,7 +230,7 @@ def mutated(draw, base, max_edits=3, weights=None):
     """G-MUT: insert / delete / replace / duplicate at arbitrary offsets or line boundaries."""
     text = draw(base)
     for _ in range(draw(st.integers(1, max_edits))):
-        kind = draw(st.sampled_from(['ins', 'ins', 'del', 'rep', 'dupline', 'delline', 'swapnl']))
+        kind = draw(st.sampled_from(['ins', 'ins', 'del', 'rep', 'dupline', 'delline', 'swapnl', 'word', 'word', 'op']))
         n = len(text)
         if kind == 'ins':
             i = draw(st.integers(0, n))
@@ -251,12 +251,25 @@ def mutated(draw, base, max_edits=3, weights=None):
             else:
                 del lines[i]
             text = ''.join(lines)
+        elif kind == 'word':
+            # same-class token substitution: a word (name or keyword) becomes another word - reserved words in name positions
+            # (x.if, def class, import a.in, f(lambda=1)) and names in keyword positions
+            ws = list(re.finditer(r'[^\W\d]\w*', text))
+            if ws:
+                m = ws[draw(st.integers(0, len(ws) - 1))]
+                text = text[:m.start()] + draw(st.sampled_from(_WORDS)) + text[m.end():]
+        elif kind == 'op':
+            ws = list(re.finditer(r'[-+*/%@&|^~<>=!.,:;()\[\]{}]+', text))
+            if ws:
+                m = ws[draw(st.integers(0, len(ws) - 1))]
+                text = text[:m.start()] + draw(st.sampled_from(OPERATORS)) + text[m.end():]
         elif kind == 'swapnl':
             nl = draw(st.sampled_from(['\r\n', '\r', '\n']))
             text = re.sub(r'\r\n|\r|\n', lambda m: nl, text)
     return text
 
 
+_WORDS = KEYWORDS + ['match', 'case', 'type', '_', 'print', 'exec', 'x', 'y', 'self', 'é', '__debug__', 'None', 'True', 'async', 'await']
 _snippets = None
 
 
